@@ -490,3 +490,112 @@ Print Assumptions c07_code_read_data.
 Print Assumptions c07_code_read_data_is_model.
 Print Assumptions c07_code_len_end.
 Print Assumptions c07_code_read_size_is_model.
+
+(* ================================================================== framing bytes need no output room *)
+(** The CRLF after chunk data, the size line of the last-chunk, trailer lines and the final CRLF produce no output, so a read
+    whose output buffer is EMPTY (cap = 0) must still consume them.  [c07_progress] and [c07_reaches_end] assume [1 <= cap];
+    the statements below do not (proofs/C07_zero.v). *)
+From Hoot.proofs Require Import C07_zero.
+
+(** [c07_progress] without the premise [1 <= cap], for every state that is not inside chunk data: with the remaining coding
+    visible, a read in a state that is neither ended nor [DChunk _] consumes at least one byte, whatever the output room
+    (zero included) and the stop flag.  (In [DChunk _] with cap = 0 nothing can be consumed: data needs room.)  The line-length
+    premise of F17 is part of [rel] (through [SizePos]), as for [c07_progress]. *)
+Theorem c07_progress_no_room : forall st R ds rest k cap stop st' i out,
+  rel st R ds -> len R <= k -> dech_is_ended st = false -> (forall n, st <> DChunk n) ->
+  read_chunked st (take k (R ++ rest)) cap stop = Ok (st', i, out) ->
+  1 <= i.
+Proof. exact step_progress_no_room. Qed.
+
+(** Draining the tail.  Once all chunk data has been delivered (the relation holds with no piece of payload left: the decoder
+    stands at the CRLF after the last data chunk, at the last-chunk size line, at a trailer line or the final CRLF, or has
+    ended), every schedule of reads that each see the [len R] remaining coding bytes ([sees n (k, cap, stop)] is [n <= k]: NO
+    condition on [cap], so all of them may have cap = 0) and that has at least [len R] items ends the body: the decoder is ended,
+    exactly [len R] bytes have been consumed (so no byte of [rest]), nothing has been output. *)
+Theorem c07_drain_no_room : forall stream rest sched t R,
+  rel (t_st t) R [] -> drop (t_consumed t) stream = R ++ rest ->
+  Forall (sees (len R)) sched -> len R <= len sched ->
+  exists t', crun stream t sched = Ok t' /\
+    dech_is_ended (t_st t') = true /\ t_consumed t' = t_consumed t + len R /\ t_out t' = t_out t.
+Proof. exact drain_no_room. Qed.
+
+(** The sharp bound: TWO such reads always suffice (a read at the CRLF after the last data chunk may return right after it:
+    [expect_crlf] does not ask for more, and with cap = 0 the outer loop stops; the next read runs through the last-chunk line,
+    all trailers and the final CRLF), and ONE suffices unless the decoder stands at that CRLF. *)
+Theorem c07_drain_no_room_two_reads : forall stream rest sched t R,
+  rel (t_st t) R [] -> drop (t_consumed t) stream = R ++ rest ->
+  Forall (sees (len R)) sched ->
+  (if dechunker_eqb (t_st t) DCrLf then 2 else 1) <= len sched ->
+  exists t', crun stream t sched = Ok t' /\
+    dech_is_ended (t_st t') = true /\ t_consumed t' = t_consumed t + len R /\ t_out t' = t_out t.
+Proof. exact drain_no_room_two_reads. Qed.
+
+(** The same after ANY history over a valid coding: as soon as the whole payload has been delivered, two reads that see the rest
+    of the coding, with any output room (none included), complete the body: exactly the coding consumed, exactly the payload
+    delivered. *)
+Theorem c07_drain_no_room_run : forall c rest sched1 t sched2,
+  valid c -> line_limit_F17 c ->
+  crun (enc c ++ rest) cstart sched1 = Ok t -> t_out t = payload c ->
+  Forall (sees (len (enc c) - t_consumed t)) sched2 -> 2 <= len sched2 ->
+  exists t', crun (enc c ++ rest) t sched2 = Ok t' /\
+    dech_is_ended (t_st t') = true /\ t_consumed t' = len (enc c) /\ t_out t' = payload c.
+Proof. exact run_drain_no_room. Qed.
+
+(** Non-vacuity on [demo] (two chunks, an extension, one trailer) followed by the start of a next message.
+    (A) Output buffers exactly as large as the chunks (11 and 3 bytes), everything visible: the decoder stands at the last-chunk
+        line with the whole payload delivered and 14 coding bytes left; the premises of the theorems above hold there, and ONE
+        read with cap = 0 consumes these 14 bytes and ends the body.
+    (B) The second read sees only  3 CRLF abc : the decoder stands at the CRLF after the last data chunk, 16 bytes left; a first
+        read with cap = 0 consumes that CRLF only, a second one ends the body. *)
+Example c07_no_room_nonvacuous :
+  let stream := enc demo ++ demo_next in
+  (exists t R,
+     crun stream cstart [(100, 11, false); (100, 3, false)] = Ok t /\
+     t_st t = DSize /\ t_consumed t = 32 /\ t_out t = payload demo /\
+     drop (t_consumed t) stream = R ++ demo_next /\ rel (t_st t) R [] /\ len R = 14 /\
+     dech_is_ended (t_st t) = false /\ (forall n, t_st t <> DChunk n) /\
+     read_chunked (t_st t) (take 14 (R ++ demo_next)) 0 false = Ok (DEnded, 14, []) /\
+     Forall (sees (len R)) [(14, 0, false)] /\
+     exists t', crun stream t [(14, 0, false)] = Ok t' /\
+                t_st t' = DEnded /\ t_consumed t' = len (enc demo) /\ t_out t' = payload demo) /\
+  (exists t R,
+     crun stream cstart [(100, 11, false); (6, 3, false)] = Ok t /\
+     t_st t = DCrLf /\ t_consumed t = 30 /\ t_out t = payload demo /\
+     drop (t_consumed t) stream = R ++ demo_next /\ rel (t_st t) R [] /\ len R = 16 /\
+     dech_is_ended (t_st t) = false /\ (forall n, t_st t <> DChunk n) /\
+     read_chunked (t_st t) (take 16 (R ++ demo_next)) 0 true = Ok (DSize, 2, []) /\
+     Forall (sees (len R)) [(16, 0, true); (16, 0, false)] /\
+     (exists t1, crun stream t [(16, 0, true)] = Ok t1 /\ t_st t1 = DSize /\ t_consumed t1 = 32) /\
+     exists t', crun stream t [(16, 0, true); (16, 0, false)] = Ok t' /\
+                t_st t' = DEnded /\ t_consumed t' = len (enc demo) /\ t_out t' = payload demo).
+Proof.
+  assert (HS : SizePos (s2b "00" ++ CRLF ++ (s2b "X-T: v" ++ CRLF ++ CRLF)) []).
+  { apply SP_last.
+    - apply cr_free_b; reflexivity.
+    - size_line_tac (s2b "00") (@nil N) (@nil N).
+    - vm_compute; discriminate.
+    - apply EP_trailer; [discriminate|apply cr_free_b; reflexivity|apply EP_end]. }
+  cbv zeta. split.
+  - eexists. exists (s2b "00" ++ CRLF ++ (s2b "X-T: v" ++ CRLF ++ CRLF)).
+    split; [vm_compute; reflexivity|]. cbn [t_st t_consumed t_out].
+    split; [reflexivity|]. split; [reflexivity|]. split; [vm_compute; reflexivity|].
+    split; [vm_compute; reflexivity|]. split; [exact HS|]. split; [vm_compute; reflexivity|].
+    split; [reflexivity|]. split; [intros n; discriminate|]. split; [vm_compute; reflexivity|].
+    split; [repeat constructor; vm_compute; discriminate|].
+    eexists. split; [vm_compute; reflexivity|]. repeat split; vm_compute; reflexivity.
+  - eexists. exists (CRLF ++ s2b "00" ++ CRLF ++ (s2b "X-T: v" ++ CRLF ++ CRLF)).
+    split; [vm_compute; reflexivity|]. cbn [t_st t_consumed t_out].
+    split; [reflexivity|]. split; [reflexivity|]. split; [vm_compute; reflexivity|].
+    split; [vm_compute; reflexivity|]. split; [eexists; split; [reflexivity|exact HS]|].
+    split; [vm_compute; reflexivity|].
+    split; [reflexivity|]. split; [intros n; discriminate|]. split; [vm_compute; reflexivity|].
+    split; [repeat constructor; vm_compute; discriminate|].
+    split; [eexists; split; [vm_compute; reflexivity|split; vm_compute; reflexivity]|].
+    eexists. split; [vm_compute; reflexivity|]. repeat split; vm_compute; reflexivity.
+Qed.
+
+Print Assumptions c07_progress_no_room.
+Print Assumptions c07_drain_no_room.
+Print Assumptions c07_drain_no_room_two_reads.
+Print Assumptions c07_drain_no_room_run.
+Print Assumptions c07_no_room_nonvacuous.
